@@ -1,0 +1,31 @@
+//go:build verif
+
+package types
+
+// Contracts for the deductive checker in /verif (comment-only; compiled only with -tags verif).
+// C03, key part: chain-id format check and the address / hash validation helpers. Lib specs: /verif/specs/c03k/64_keys.spec.
+
+/*@
+// the package-level compiled expression haqq/types.haqqChainID (the engine names package-level values glob_<pkg>_<Name>)
+const glob_types_haqqChainID Int
+
+// IsValidChainID: at most 48 characters AND a match of `^([a-z]{1,})_{1}([1-9][0-9]*)-{1}([1-9][0-9]*)$` - on the string as
+// given (no trimming, unlike ParseChainID which trims first)
+func IsValidChainID
+    ensures def: result == (len(chainID) <= 48 && re_match(glob_types_haqqChainID, chainID))
+
+// all 20 bytes of an address / all 32 bytes of a hash are zero (the value common.Address{} / common.Hash{})
+specfunc AddrIsZero(a Address) bool = forall k int :: 0 <= k && k < 20 ==> a[k] == 0
+specfunc HashIsZero(h Hash) bool = forall k int :: 0 <= k && k < 32 ==> h[k] == 0
+// IsZeroAddress / IsEmptyHash: the PARSED value is the zero value (HexToAddress / HexToHash never fail: a malformed string is
+// cropped / padded, e.g. IsZeroAddress("") and IsZeroAddress("zz") are true)
+func IsZeroAddress
+    ensures def: result == AddrIsZero(hex_addr(address))
+func IsEmptyHash
+    ensures def: result == HashIsZero(hex_hash(hash))
+func ValidateAddress
+    ensures iff: (result == nil) == is_hex_addr(address)
+// nil exactly for a well-formed hex address other than the zero address
+func ValidateNonZeroAddress
+    ensures iff: (result == nil) == (is_hex_addr(address) && !AddrIsZero(hex_addr(address)))
+@*/
